@@ -1063,6 +1063,8 @@ class Interp(InterpBase):
                     out["names"].add(e.id)
                 elif e.id in params:
                     out["anyarg"] = True
+                elif ("<free>", e.id) in params:
+                    out["names"].add(e.id)  # free variable of a nested function: a name of an enclosing frame
             elif isinstance(e, ast.Attribute):
                 out["attrs"].add(e.attr)
             else:
@@ -1073,7 +1075,11 @@ class Interp(InterpBase):
                 return
             seen.add(g.fq)
             fresh = g.param_names[0] if g.name in ("__init__", "__post_init__", "__new__") and g.param_names else None
-            todo.append((list(g.node.body), set(g.param_names), fresh))
+            params: set = set(g.param_names)
+            if g.outer is not None:
+                own = {n.id for n in own_nodes(g.node) if isinstance(n, ast.Name) and isinstance(n.ctx, ast.Store)} | params
+                params |= {("<free>", n.id) for n in own_nodes(g.node) if isinstance(n, ast.Name) and n.id not in own}
+            todo.append((list(g.node.body), params, fresh))
 
         seen: set[str] = set()
         todo: list[tuple[list[ast.AST], set[str] | None, Any]] = [(list(body), None, None)]
@@ -1091,7 +1097,7 @@ class Interp(InterpBase):
                                 enter(g)
                         elif isinstance(n.func, ast.Name):
                             for g in by_name.get(n.func.id, []):
-                                if g.cls is None:
+                                if g.cls is None or g.outer is not None:
                                     enter(g)
                             for c in self.repo.classes.values():
                                 if c.name == n.func.id:
